@@ -1919,14 +1919,17 @@ bool DGXMLScanner::scanStartTagNS(bool& gotData)
     //  If we have a document handler, then tell it about this start tag. We
     //  don't have any URI id to send along, so send fEmptyNamespaceId. We also do not send
     //  any prefix since its just one big name if we are not doing namespaces.
+    //  Resolve the element's prefix whether or not a handler is installed (an unbound
+    //  prefix is an error either way) and remember the URI for the end tag.
+    unsigned int uriId = resolvePrefix
+        (
+            elemDecl->getElementName()->getPrefix()
+            , ElemStack::Mode_Element
+        );
+    fElemStack.setCurrentURI(uriId);
+
     if (fDocHandler)
     {
-        unsigned int uriId = resolvePrefix
-            (
-                elemDecl->getElementName()->getPrefix()
-                , ElemStack::Mode_Element
-            );
-
         fDocHandler->startElement
         (
             *elemDecl
